@@ -435,6 +435,8 @@ h1_recv_headers (request_st * const r, connection * const con)
         }
 
         if (((unsigned char *)c->mem->ptr)[c->offset] < 32) {
+            if (discard_blank && 1 == clen && c->mem->ptr[c->offset] == '\r')
+                continue; /* first half of blank line following prior request*/
             /* expecting ASCII method beginning with alpha char
              * or HTTP/2 pseudo-header beginning with ':' */
             /*(TLS handshake begins with SYN 0x16 (decimal 22))*/
